@@ -21,6 +21,7 @@ import (
 	_ "verifsim/harness/refcountx"
 	_ "verifsim/harness/routinex"
 	_ "verifsim/harness/csyncx"
+	_ "verifsim/harness/iox"
 	_ "verifsim/harness/keyedx"
 	"verifsim/simrt"
 )
